@@ -12,11 +12,11 @@ import (
 	"time"
 
 	"github.com/attestantio/go-block-relay/services/blockauctioneer"
+	eth2client "github.com/attestantio/go-eth2-client"
 	consensusapi "github.com/attestantio/go-eth2-client/api"
 	apiv1 "github.com/attestantio/go-eth2-client/api/v1"
 	"github.com/attestantio/go-eth2-client/spec/bellatrix"
 	"github.com/attestantio/go-eth2-client/spec/phase0"
-	eth2client "github.com/attestantio/go-eth2-client"
 	"github.com/attestantio/vouch/mock"
 	"github.com/attestantio/vouch/services/beaconblockproposer"
 	"github.com/attestantio/vouch/services/blockrelay"
@@ -65,6 +65,16 @@ func (m *Majordomo) Fetch(_ context.Context, _ string) ([]byte, error) {
 		return []byte(`{"version":2,"relays":{"x":`), nil
 	case "empty":
 		return []byte{}, nil
+	case "json-null":
+		return []byte("null"), nil
+	case "json-array":
+		return []byte("[]"), nil
+	case "json-string":
+		return []byte(`"config"`), nil
+	case "json-empty-object":
+		return []byte("{}"), nil
+	case "json-version-only":
+		return []byte(`{"version":3}`), nil
 	default:
 		return nil, nil
 	}
@@ -190,24 +200,26 @@ func (b *Bidder) BuilderBid(ctx context.Context, slot phase0.Slot, parentHash ph
 
 // Env is one block relay service with its surroundings.
 type Env struct {
-	Svc       *relaystd.Service
-	Prep      *prepstd.Service
-	Config    *Majordomo
-	Sched     *harness.CapSched
-	Clock     *harness.VClock
-	Accounts  *Accounts
-	Relays    map[string]*harness.Relay
-	Nodes     []*Node
-	Bidder    *Bidder
+	Svc        *relaystd.Service
+	Prep       *prepstd.Service
+	Config     *Majordomo
+	Sched      *harness.CapSched
+	Clock      *harness.VClock
+	Accounts   *Accounts
+	Relays     map[string]*harness.Relay
+	Nodes      []*Node
+	Bidder     *Bidder
 	FallbackFR bellatrix.ExecutionAddress
 	FallbackGL uint64
-	Tag       string
+	Tag        string
 }
 
 var envNo atomic.Int64
 
 // RelayAddr makes the relay addresses of an env unique (the builder-client cache is process wide).
-func (e *Env) RelayAddr(i int) string { return fmt.Sprintf("https://relay%d-%s.example.com/", i, e.Tag) }
+func (e *Env) RelayAddr(i int) string {
+	return fmt.Sprintf("https://relay%d-%s.example.com/", i, e.Tag)
+}
 
 // NewEnv builds the services. initial is the config source's first outcome (fetched during construction).
 func NewEnv(accts []harness.Acct, nNodes int, initial Outcome, bidder *Bidder) (*Env, error) {
